@@ -5,6 +5,8 @@ import vlib
 from props import fam_sym as F
 
 
+MANIFEST = {'technique': 'Coq proof: kernel-evaluated exhaustive table check lifted by reflection + differential check of extracted model vs gemmi', 'text': 'Theorems C04_group/C04_lookups/C04_alt_names/C04_basisops_exact hold for every one of the 564 rows regenerated from /repo (group closure over all operation pairs, inverses, order/centring/point group/system/Sohncke/centrosymmetric/enantiomorphic against independent ITA data, reference-setting transform, triplet round trip, first-match lookups). The hand-written Hall/Dimino/lookup model is tied to the code by an exact differential run over all rows, all documented spellings and generated Hall symbols/names, plus a group/lookup oracle evaluated on gemmi.', 'note': 'Trusted: Coq kernel + vm_compute; table translator gen/dump_sg.cpp; extraction (ExtrOcamlBasic); harness. Theorems are closed under the global context (no axioms). is_symmorphic is only compared with the model.'}
+
 def run(chk):
     quick = chk.tier == 'quick'
     rng = random.Random(chk.seed)
